@@ -65,4 +65,14 @@ example : let c : Cfg := ⟨.validate, true, false, true, true, false, false, tr
     let h : Heap Nat := fun _ => 0
     (exec (fun _ g => g + 1) h (plan c).1 10) (plan c).2 = 3 ∧ (exec (fun _ g => g + 1) h (plan c).1 10) .data = 0 := by decide
 
+/-- **the graph that is validated is the pre-expanded graph**: for every configuration, every heap content and every
+    mix-in / inference / rule function, the object handed to the validation loop holds exactly
+    rules(infer(inoculate(data))) (each stage only if the configuration has it) — whether it is the caller's own
+    object (inplace) or a copy -/
+theorem validated_graph_is_expansion {G} (c : Cfg) (w : Stage → G → G) (h : Heap G) :
+    (exec w h (plan c).1 (plan c).1.length) (plan c).2 = expand c w (h .data) := by
+  obtain ⟨api, hasOnt, multigraph, inference, advanced, inplace, shapesInData, hasRules⟩ := c
+  cases api <;> cases hasOnt <;> cases inference <;> cases advanced <;> cases inplace <;> cases shapesInData <;> cases hasRules <;>
+    simp [plan, exec, execOp, expand]
+
 end Pyshacl.Pipeline
